@@ -20,18 +20,26 @@ from . import tables
 
 class Ctx:
     """Analysis context: a function analysed for a concrete receiver class."""
-    __slots__ = ('func', 'self_cls', 'consts')
+    __slots__ = ('func', 'self_cls', 'consts', 'ptypes')
 
     def __init__(self, func: FuncInfo, self_cls: Optional[str] = None,
-                 consts: FrozenSet = frozenset()):
+                 consts: FrozenSet = frozenset(),
+                 ptypes: FrozenSet = frozenset()):
         self.func = func
         if self_cls is None and func.cls is not None:
             self_cls = func.cls.qname
         self.self_cls = self_cls
         self.consts = consts      # {(param, literal value)} known at a site
+        self.ptypes = ptypes      # {(param, frozenset(types))} from a site
 
     def key(self):
-        return (self.func.qname, self.self_cls, self.consts)
+        return (self.func.qname, self.self_cls, self.consts, self.ptypes)
+
+    def ptype_of(self, name: str):
+        for k, v in self.ptypes:
+            if k == name:
+                return v
+        return None
 
     def const_of(self, name: str):
         for k, v in self.consts:
@@ -158,6 +166,11 @@ class Resolver:
         while g is not None:
             ts = self._local_types(g, ctx.self_cls, name)
             if ts is not None:
+                if g is f and name in f.params:
+                    pt = ctx.ptype_of(name)
+                    if pt and not any(t[0] in ('inst', 'cls', 'bound',
+                                               'func') for t in ts):
+                        return set(pt)
                 return set(ts)
             g = g.parent
         # module level
